@@ -26,11 +26,12 @@ def run_history(rng, length):
         pr = rwcommon.gen_ok_project(rng, max_files=3, max_pats=3)
         if ref_safe(pr["vp"]):
             break
+    pr["variants"] = True       # implicit self pattern, non-normalised file keys, a glob key that also matches the config file
     vp = pr["vp"]
     tree = refimpl.tokenize(vp)
     st = dict(pr["old_state"])
     date = dt.date(*pr["date"])
-    case = {"vp": vp, "start": pr["old"], "steps": []}
+    case = {"vp": vp, "start": pr["old"], "steps": [], "implicit_self": pr["implicit_self"], "glob_self": pr["glob_self"], "key_alias": pr["key_alias"]}
     configured = sorted(["bumpver.toml"] + list(pr["files"]))
     with rwcommon.setup(pr, "commit = true\ntag = true\npush = false") as p:
         p.git_init()
